@@ -656,6 +656,17 @@ int cmd_uci_session(const Args& a)
     std::thread reader([&] { uci.loop(); });
     long gos = 0, answered = 0;
     bool hung = false;
+    FILE* tr = a.has("trace") ? fopen(a.s("trace").c_str(), "w") : nullptr;
+    size_t consumed = 0;     // output lines already attributed to earlier commands
+    auto flush_out = [&](const std::string& cmd) {
+        if (!tr) return;
+        std::vector<std::string> ls;
+        { std::lock_guard<std::mutex> g(out.m); for (size_t i = consumed; i < out.lines.size(); ++i) ls.push_back(out.lines[i]); consumed = out.lines.size(); }
+        std::string arr = "[";
+        for (size_t i = 0; i < ls.size(); ++i) arr += (i ? "," : "") + jstr(ls[i]);
+        fprintf(tr, "{\"e\":\"cmd\",\"text\":%s,\"out\":%s]}\n", jstr(cmd).c_str(), arr.c_str());
+    };
+    { in.push("isready"); out.wait_line("readyok", 10000); std::lock_guard<std::mutex> g(out.m); consumed = out.lines.size(); }
     for (auto& l : script)
     {
         int before = out.count("bestmove");
@@ -672,6 +683,7 @@ int cmd_uci_session(const Args& a)
             if (hung) break;
             answered++;
             std::this_thread::sleep_for(std::chrono::milliseconds(5));
+            flush_out(l);
         }
         else
         {
@@ -685,8 +697,10 @@ int cmd_uci_session(const Args& a)
                 if (std::chrono::duration_cast<std::chrono::milliseconds>(std::chrono::steady_clock::now() - t0).count() > wait_ms) { hung = true; break; }
             }
             if (hung) break;
+            flush_out(l);
         }
     }
+    if (tr) fclose(tr);
     if (hung) { std::cout.rdbuf(oc); std::cin.rdbuf(ic); fprintf(stderr, "SESSION HUNG\n"); _exit(7); }
     in.push("quit");
     reader.join();
